@@ -492,6 +492,7 @@ def correspond(ctx, suite, cases, flavor="san", shards=None, timeout=1800):
     mexe = build_model_driver(ctx)
     t = time.time()
     impl, bad = run_sharded(ctx, exe, cases, suite + "-impl", shards=shards, timeout=timeout)
+    impl, ctx.last_traces = strip_traces(impl)
     t1 = time.time()
     model, badm = run_sharded(ctx, mexe, cases, suite + "-model", shards=shards, timeout=timeout)
     if badm is not None:
@@ -501,6 +502,22 @@ def correspond(ctx, suite, cases, flavor="san", shards=None, timeout=1800):
     st["cases"] += len(cases)
     ctx.cov["evaluations"] += len(cases)
     return impl, model, bad
+
+
+TRACE_RE = re.compile(r" #t=([0-9a-f]+)")
+
+
+def strip_traces(lines):
+    """S-connp / S-multi lines of the implementation carry ' #t=<hex bits of the guarded trace points that fired>'
+    (one per connection); the model has no trace points, so they are removed before comparing and returned OR-ed."""
+    out, tr = [], []
+    for l in lines:
+        bits = 0
+        for m in TRACE_RE.finditer(l):
+            bits |= int(m.group(1), 16)
+        out.append(TRACE_RE.sub("", l) if bits or " #t=" in l else l)
+        tr.append(bits)
+    return out, tr
 
 
 def note_distinct(ctx, keys):
